@@ -28,7 +28,9 @@ RULE = ("kind sim: a parent screen (1-5 plates, most unobserved, arity 1-3, name
         "prepare_retrospective_simulation CLI main() runs in-process on a saved fully observed screen with random generator / "
         "smoother / initial-plate options and hold-out fraction; the training and test screens it writes, and the training "
         "screen after a reveal, must give one id to one sample name and to one (treatment, dose), and the training mappings "
-        "must know every condition of the test screen.  Non-trivial: >= 1 operation and >= 2 parent "
+        "must know every condition of the test screen; the latest stage with an observed row is saved and handed to "
+        "train_model.main() in-process, stopped when the model receives its observations: every sample / (treatment, dose) it "
+        "is given must carry the id the loaded screen's mapping gives it (train_stage).  Non-trivial: >= 1 operation and >= 2 parent "
         "rows; distinct by canonical description.")
 THEOREMS = {
     "C03_split_keeps_mappings": "both halves of any hold-out split carry the parent's treatment and sample mapping verbatim and number their rows by them (true of today's code)",
@@ -287,9 +289,63 @@ def _run_prepare(desc):
             pred = "[prepare-mapping-misses-holdout] the training screen's mappings do not know a sample / (treatment, dose) of the test screen: embedding sizes implied by the two halves differ"
         if set(maps[1][1][2]) - set(maps[0][1][2]):
             feats.append("sample_only_in_other_half")
+        # the training stage: what train_model.main hands to the model must carry the ids of the screen it loaded (thetas are
+        # indexed by them and predict on every later stage through the same ids)
+        trainable = next((s for _, s in reversed(stages) if s is not b and bool(np.any(s.observation_mask))), None)
+        if pred is None and trainable is not None:
+            got = _train_stage(trainable, d, desc["seed"])
+            if isinstance(got, str):
+                pred = got
+            elif got is not None:
+                feats.append("train_stage")
+                ref = _name_ids(trainable)
+                for which, seen, mp in (("sample", got[0], ref[0]), ("treatment", got[1], ref[1])):
+                    for name, i in seen.items():
+                        if mp.get(name) != i and pred is None:
+                            pred = "[train-ids-disagree] train_model.main hands the model %s %r with id %d; the screen it loaded maps it to %r (argv %r)" % (
+                                which, name, i, mp.get(name), argv[7:])
+                if len(ref[0]) > len(got[0]) or len(ref[1]) > len(got[1]):
+                    feats.append("train_stage_ids_not_all_observed")
         return dict(wire=None, impl=None, pred=pred, features=feats)
     finally:
         shutil.rmtree(d, ignore_errors=True)
+
+
+class _Stop(BaseException):
+    pass
+
+
+def _train_stage(screen, d, seed):
+    """batchie.cli.train_model.main() in-process on `screen` saved to a file, stopped when the model receives its observations:
+    (sample name -> id, (treatment name, dose) -> id) of what add_observations was given; None when it was not called; a
+    string when main failed"""
+    from unittest import mock
+    from batchie.cli import train_model
+    from batchie.models.sparse_combo import SparseDrugCombo
+
+    path = os.path.join(d, "stage.h5")
+    screen.save_h5(path)
+    got = {}
+
+    def spy(self, data):
+        got["s"] = {str(n): int(i) for n, i in zip(data.sample_names, data.sample_ids)}
+        got["t"] = {(str(n), float(x)): int(i) for n, x, i in zip(np.asarray(data.treatment_names).reshape(-1),
+                                                                   np.asarray(data.treatment_doses).reshape(-1),
+                                                                   np.asarray(data.treatment_ids).reshape(-1))}
+        raise _Stop()
+
+    argv = ["train_model", "--model", "SparseDrugCombo", "--model-param", "n_embedding_dimensions=2", "--n-burnin", "0",
+            "--n-samples", "1", "--thin", "1", "--n-chains", "1", "--chain-index", "0", "--seed", str(seed),
+            "--data", path, "--output", os.path.join(d, "thetas.h5")]
+    try:
+        with mock.patch.object(SparseDrugCombo, "add_observations", spy), \
+                mock.patch.object(train_model.sampling, "sample", lambda **kw: (_ for _ in ()).throw(_Stop())):
+            r = common.impl_call(lambda: common.run_cli_main(train_model, argv))
+    except _Stop:
+        r = None
+    if isinstance(r, ImplError):
+        return "[train-stage-failed] train_model.main on a stage of the prepared simulation raised %r" % (r,)
+    return (got["s"], got["t"]) if got else None
 
 
 def run(desc):
